@@ -79,7 +79,7 @@ Proof.
   pose proof (zip_ok_length c HASH reg _ _ Hzip) as Hlen.
   assert (Hne : vals <> []) by (intros ->; cbn in Hver; discriminate).
   rewrite rdepth_rec in Hd.
-  unfold pack_member, pack_vals, xident. cbn [unpack_member]. rewrite Ef.
+  unfold pack_member, pack_vals, xident. cbn [unpack_member lookup_ident]. rewrite Ef.
   assert (Hfit : fit false (List.length (field_types d)) (map (pack_f c HASH) vals) = Some (map (pack_f c HASH) vals)).
   { unfold fit. rewrite map_length, Hlen, Nat.ltb_irrefl, Nat.sub_diag. cbn [repeat]. rewrite app_nil_r. reflexivity. }
   rewrite Hfit.
